@@ -123,6 +123,60 @@ fn check_cover(t: [(f32, f32); 3], r: &mut Report, fam: &str) {
     if s[2] - s[1] == 1.0 || s[1] - s[0] == 1.0 { r.h("half-exactly-one-row"); }
 }
 
+/// Triangles with one vertex far off screen (|coordinate| up to 1e5, beyond 2^15 and 2^16): judged row by row against the
+/// exact span of the row's centre line. The band is 0.001 px plus the f32 resolution of the edge position itself
+/// (2^-21 |x|), so that rows whose span ends lie at small x are judged as strictly as everywhere else and the far ends
+/// only for gross misplacement. Rows beyond the first and last 400 are sampled (every 97th).
+fn check_far(i: u64, r: &mut Report) {
+    r.eval();
+    let base: [[(f32, f32); 3]; 8] = [
+        [(0.0, 0.0), (100000.0, 50.0), (0.0, 100.0)], [(10.25, 0.0), (300.5, 0.0), (150.0, 60000.0)], [(3.0, 2.0), (70000.3, 40000.7), (5.5, 90.25)], [(0.0, 0.0), (40000.0, 10.0), (20.0, 30.0)],
+        [(2.5, 0.0), (200.0, 33000.0), (65.0, 80.0)], [(0.0, 5.0), (66000.5, 6.5), (1.0, 300.0)], [(7.0, 1.0), (90.0, 2.0), (32769.0, 32770.0)], [(0.0, 0.0), (32767.0, 100.0), (32769.0, 0.5)]];
+    const PERM: [[usize; 3]; 6] = [[0, 1, 2], [0, 2, 1], [1, 0, 2], [1, 2, 0], [2, 0, 1], [2, 1, 0]];
+    let b = base[(i / 6) as usize];
+    let t: [(f32, f32); 3] = std::array::from_fn(|k| b[PERM[(i % 6) as usize][k]]);
+    let case = || obj! {"kind" => "far", "i" => i};
+    let key = |cl: &str| format!("{cl}|far vertex|{t:?}");
+    let sls = match fill_cover(t) { Ok(s) => s, Err(p) => { r.violation(key("fill-panic"), format!("tri_fill{t:?} panicked: {p}"), case()); return; } };
+    let span = |y: usize| -> Option<(f64, f64)> {
+        let yc = y as f64 + 0.5;
+        let mut xs: Vec<f64> = vec![];
+        for k in 0..3 { let (a, b) = (t[k], t[(k + 1) % 3]); let (ay, by) = (a.1 as f64, b.1 as f64); if ay != by && yc >= ay.min(by) && yc <= ay.max(by) { xs.push(a.0 as f64 + (yc - ay) * (b.0 as f64 - a.0 as f64) / (by - ay)); } }
+        if xs.len() < 2 { None } else { Some((xs.iter().cloned().fold(f64::MAX, f64::min), xs.iter().cloned().fold(f64::MIN, f64::max))) }
+    };
+    let band = |x: f64| 0.001 + x.abs() / 2097152.0;
+    let (ymin, ymax) = (t.iter().map(|p| p.1).fold(f32::MAX, f32::min).floor() as usize, t.iter().map(|p| p.1).fold(0.0, f32::max).ceil() as usize);
+    let mut emitted = std::collections::HashMap::new();
+    let mut last: Option<usize> = None;
+    for s in &sls {
+        if let Some(l) = last { if s.y <= l { r.violation(key("scanline-order"), format!("scanline y={} after y={l}", s.y), case()); return; } }
+        last = Some(s.y);
+        if s.x1.saturating_sub(s.x0) != s.nfrag { r.violation(key("xs-vs-fragments"), format!("scanline y={}: xs={}..{} but {} fragments", s.y, s.x0, s.x1, s.nfrag), case()); return; }
+        emitted.insert(s.y, (s.x0, s.x1));
+    }
+    let mut judged = 0;
+    for y in ymin.saturating_sub(1)..=ymax + 1 {
+        if y > ymin + 400 && y + 400 < ymax && y % 97 != 0 { continue; }
+        let (x0, x1) = emitted.get(&y).cloned().unwrap_or((0, 0));
+        match span(y) {
+            None => { if x1 > x0 { r.violation(key("extra"), format!("triangle {t:?}: scanline y={y} x={x0}..{x1} but the row's centre line misses the triangle"), case()); return; } }
+            Some((xl, xr)) => {
+                // every produced centre lies within the span (up to the band); the centres next to the produced range do not lie inside it by more than the band
+                if x1 > x0 {
+                    if x0 as f64 + 0.5 < xl - band(xl) || x1 as f64 - 0.5 > xr + band(xr) { r.violation(key("extra"), format!("triangle {t:?}: scanline y={y} covers x={x0}..{x1}, the exact span of its centre line is [{xl}, {xr}]"), case()); return; }
+                    if x0 as f64 - 0.5 > xl + band(xl) || x1 as f64 + 0.5 < xr - band(xr) { r.violation(key("missing"), format!("triangle {t:?}: scanline y={y} covers only x={x0}..{x1}, the exact span of its centre line is [{xl}, {xr}]"), case()); return; }
+                } else {
+                    // nothing produced: no centre may lie inside by more than the band
+                    let c = (xl + band(xl) - 0.5).ceil() + 0.5;
+                    if c < xr - band(xr) { r.violation(key("missing"), format!("triangle {t:?}: no fragments on row {y} although the centre at x={c} lies inside the exact span [{xl}, {xr}]"), case()); return; }
+                }
+                judged += 1;
+            }
+        }
+    }
+    if judged > 0 { r.nontrivial(); r.h("far-vertex-rows-judged"); }
+}
+
 // ------------------------------------------------------------------ C05
 
 trait Attr: Vary + Clone + std::fmt::Debug {
@@ -383,6 +437,7 @@ fn main() {
     let cfg = Cfg::from_args(|s| if s == "cover" { "C04".into() } else { "C05".into() });
     if cfg.replay.is_some() {
         replay_main(&cfg, |c, r| {
+            if c.get("kind").and_then(|j| j.as_str()) == Some("far") { check_far(c.get("i").unwrap().as_u64().unwrap(), r); return; }
             if c.get("kind").and_then(|j| j.as_str()) == Some("fsliver") { check_flat_sliver(c.get("i").unwrap().as_u64().unwrap(), r); return; }
             if c.get("kind").and_then(|j| j.as_str()) == Some("asliver") { check_apex_sliver(c.get("i").unwrap().as_u64().unwrap(), r); return; }
             if c.get("kind").and_then(|j| j.as_str()) == Some("vsliver") { check_vertical_sliver(c.get("i").unwrap().as_u64().unwrap(), r); return; }
@@ -428,9 +483,10 @@ fn main() {
     rep.sample(0, || obj! {"family" => fams[0].0.clone(), "triangle" => vec![0.0f32, 0.0, 4.0, 0.0, 2.0, 1.0]});
     rep.sample(1, || obj! {"family" => fams[2].0.clone(), "triangle_vertex_example" => vec![1.6f32, 2.325]});
     if !is_cover { rep.merge(par_range(&cfg, 21870 * 3, check_vertical_sliver)); rep.merge(par_range(&cfg, 8748 * 3, check_apex_sliver)); rep.merge(par_range(&cfg, 972 * 6, check_flat_sliver)); }
+    if is_cover { rep.merge(par_range(&cfg, 48, check_far)); }
     if is_cover {
         rep.finish(&cfg, "exploration",
-            "every ordered vertex triple of: the half-pixel lattice 0..N px, the same lattice with all vertices (or each vertex independently) shifted by 1/3, 0.1, 2^-10, 0.499 px (non-dyadic slopes), a copy translated by +57 px, flat slivers 2^-11 px high at y = 700 and 2^-20 px high at y = 2.5 around pixel-centre rows, upright slivers 0.003 px wide around the pixel-centre column x = 4000.5, large triangles (up to 321 px) on and off the lattice, and (thorough) the quarter-pixel lattice. Every triangle is filled with z = 1 and again with z = 0 at every vertex and with z = x - 2.5: the scanlines and the fragment counts must not depend on the depths. Oracle: exact i128 edge functions on the exactly representable f32 inputs; centres within 0.001 px of an edge are exempt. Per triangle: covered set == inside set off the band, scanlines strictly increasing in y, no pixel twice, |xs| == number of fragments. All six vertex orders are separate cases. non-trivial = >=1 strictly inside centre.",
+            "every ordered vertex triple of: the half-pixel lattice 0..N px, the same lattice with all vertices (or each vertex independently) shifted by 1/3, 0.1, 2^-10, 0.499 px (non-dyadic slopes), a copy translated by +57 px, flat slivers 2^-11 px high at y = 700 and 2^-20 px high at y = 2.5 around pixel-centre rows, upright slivers 0.003 px wide around the pixel-centre column x = 4000.5, large triangles (up to 321 px) on and off the lattice, and (thorough) the quarter-pixel lattice. Every triangle is filled with z = 1 and again with z = 0 at every vertex and with z = x - 2.5: the scanlines and the fragment counts must not depend on the depths. Oracle: exact i128 edge functions on the exactly representable f32 inputs; centres within 0.001 px of an edge are exempt. Plus eight triangles with a vertex far off screen (coordinates to 1e5, all six vertex orders), judged row by row against the exact span of the row's centre line with a band of 0.001 px + 2^-21 |x|. Per triangle: covered set == inside set off the band, scanlines strictly increasing in y, no pixel twice, |xs| == number of fragments. All six vertex orders are separate cases. non-trivial = >=1 strictly inside centre.",
             &["screen coordinates in [0, 64], [1000, 1005] x [700, 704], [0, 321], x in [4000, 4001] (negative pixel coordinates are outside tri_fill's usize domain)", "attribute (); depth values 1, 0, x - 2.5"]);
     } else {
         rep.finish(&cfg, "exploration",
